@@ -38,7 +38,7 @@ fn lookup(id: &str) -> Option<(RunFn, ReplayFn)>
         "C06" => Some((props::schedp::run_c06, props::schedp::replay_c06)),
         "C07" => Some((props::audits::run_c07, props::audits::replay_c07)),
         "C08" => Some((props::audits::run_c08, props::audits::replay_c08)),
-        "C09" => Some((props::audits::run_c09, props::audits::replay_c09)),
+        "C09" => Some((props::realp::run_c09, props::realp::replay_c09)),
         "C17" => Some((props::c17::run, props::c17::replay)),
         "C18" => Some((props::c18::run, props::c18::replay)),
         "C19" => Some((props::c19::run, props::c19::replay)),
